@@ -32,4 +32,4 @@ TRUSTED = [
 
 
 def main(chk: core.Check, replay: typing.Optional[str] = None) -> int:
-    return campaign.run(chk, 'ser', ['c01'], TRUSTED, replay)
+    return campaign.run(chk, 'ser', ['c01', 'codec_tpl'], TRUSTED, replay)
